@@ -1073,3 +1073,158 @@ package gojq
 //@   property C08
 //@   modifies *
 //@   requires 0 <= minarity && minarity <= maxarity && maxarity <= 30
+
+// C11: the lexicographic construction preserves the order laws (the inductive steps of the proof that
+// cmpv is a total preorder): if antisymmetry / transitivity hold for the elements, they hold for arrays.
+//@ lemma arr_antisym(a []any, b []any)
+//@   property C11
+//@   using fd_def fd_zero fd_diff cmpv_arr
+//@   requires forall j :: {cmpv(a[j], b[j])} 0 <= j && j < min(len(a), len(b)) ==> cmpv(a[j], b[j]) == -cmpv(b[j], a[j])
+//@   use fd_def(a, b)
+//@   use fd_def(b, a)
+//@   use fd_diff(a, b)
+//@   use fd_diff(b, a)
+//@   use fd_zero(a, b, fd(b, a))
+//@   use fd_zero(b, a, fd(a, b))
+//@   use cmpv_arr(a, b)
+//@   use cmpv_arr(b, a)
+//@   ensures cmpv(a, b) == -cmpv(b, a)
+
+//@ lemma arr_trans(a []any, b []any, c []any)
+//@   property C11
+//@   using fd_def fd_zero fd_diff cmpv_arr cmpv_range
+//@   requires forall j :: {cmpv(a[j], c[j])} 0 <= j && j < min(len(a), min(len(b), len(c))) ==> (cmpv(a[j], b[j]) == 0 ==> cmpv(a[j], c[j]) == cmpv(b[j], c[j])) && (cmpv(b[j], c[j]) == 0 ==> cmpv(a[j], c[j]) == cmpv(a[j], b[j])) && (cmpv(a[j], b[j]) < 0 && cmpv(b[j], c[j]) < 0 ==> cmpv(a[j], c[j]) < 0)
+//@   requires cmpv(a, b) <= 0 && cmpv(b, c) <= 0
+//@   use fd_def(a, b)
+//@   use fd_def(b, c)
+//@   use fd_def(a, c)
+//@   use fd_diff(a, b)
+//@   use fd_diff(b, c)
+//@   use fd_diff(a, c)
+//@   use fd_zero(a, b, fd(a, c))
+//@   use fd_zero(b, c, fd(a, c))
+//@   use fd_zero(a, c, fd(a, b))
+//@   use fd_zero(a, c, fd(b, c))
+//@   use fd_zero(a, b, fd(b, c))
+//@   use fd_zero(b, c, fd(a, b))
+//@   use cmpv_arr(a, b)
+//@   use cmpv_arr(b, c)
+//@   use cmpv_arr(a, c)
+//@   ensures cmpv(a, c) <= 0
+
+// base cases: integers of any representation and strings
+//@ lemma int_antisym(a any, b any)
+//@   property C11
+//@   using cmpv_int
+//@   requires isInteger(a) && isInteger(b)
+//@   use cmpv_int(a, b)
+//@   use cmpv_int(b, a)
+//@   ensures cmpv(a, b) == -cmpv(b, a)
+//@ lemma int_trans(a any, b any, c any)
+//@   property C11
+//@   using cmpv_int
+//@   requires isInteger(a) && isInteger(b) && isInteger(c) && cmpv(a, b) <= 0 && cmpv(b, c) <= 0
+//@   use cmpv_int(a, b)
+//@   use cmpv_int(b, c)
+//@   use cmpv_int(a, c)
+//@   ensures cmpv(a, c) <= 0
+//@ lemma str_antisym(a any, b any)
+//@   property C11
+//@   using cmpv_str str_lt_irrefl str_lt_total str_lt_asym
+//@   requires (a is string) && (b is string)
+//@   use cmpv_str(a, b)
+//@   use cmpv_str(b, a)
+//@   ensures cmpv(a, b) == -cmpv(b, a)
+//@ lemma str_trans(a any, b any, c any)
+//@   property C11
+//@   using cmpv_str str_lt_irrefl str_lt_total str_lt_asym str_lt_trans
+//@   requires (a is string) && (b is string) && (c is string) && cmpv(a, b) <= 0 && cmpv(b, c) <= 0
+//@   use cmpv_str(a, b)
+//@   use cmpv_str(b, c)
+//@   use cmpv_str(a, c)
+//@   ensures cmpv(a, c) <= 0
+
+// different kinds, and the kinds without inner order (null, false, true)
+//@ lemma rank_antisym(a any, b any)
+//@   property C11
+//@   using cmpv_rank cmpv_low
+//@   requires rank(a) != rank(b) || rank(a) < 3
+//@   use cmpv_rank(a, b)
+//@   use cmpv_rank(b, a)
+//@   use cmpv_low(a, b)
+//@   use cmpv_low(b, a)
+//@   ensures cmpv(a, b) == -cmpv(b, a)
+
+// objects: the key lists are compared like arrays of strings, then the values in key order
+//@ lemma obj_antisym(a map[string]any, b map[string]any)
+//@   property C11
+//@   using kfd_def kfd_zero kfd_diff vfd_def vfd_zero vfd_diff cmpv_obj str_lt_irrefl str_lt_total str_lt_asym
+//@   requires forall j :: {skey(a, j)} 0 <= j && j < len(a) ==> cmpv(a[skey(a, j)], b[skey(a, j)]) == -cmpv(b[skey(a, j)], a[skey(a, j)])
+//@   use kfd_def(a, b)
+//@   use kfd_def(b, a)
+//@   use kfd_diff(a, b)
+//@   use kfd_diff(b, a)
+//@   use kfd_zero(a, b, kfd(b, a))
+//@   use kfd_zero(b, a, kfd(a, b))
+//@   use vfd_def(a, b)
+//@   use vfd_def(b, a)
+//@   use vfd_diff(a, b)
+//@   use vfd_diff(b, a)
+//@   use vfd_zero(a, b, vfd(b, a))
+//@   use vfd_zero(b, a, vfd(a, b))
+//@   use kfd_zero(a, b, vfd(a, b))
+//@   use kfd_zero(a, b, vfd(b, a))
+//@   use cmpv_obj(a, b)
+//@   use cmpv_obj(b, a)
+//@   ensures cmpv(a, b) == -cmpv(b, a)
+
+// key lists: comparing them is a total preorder because the byte-wise order on strings is
+//@ lemma keys_trans(a map[string]any, b map[string]any, c map[string]any)
+//@   property C11
+//@   using kfd_def kfd_zero kfd_diff str_lt_irrefl str_lt_total str_lt_asym str_lt_trans
+//@   requires cmpkeys(a, b) <= 0 && cmpkeys(b, c) <= 0
+//@   use kfd_def(a, b)
+//@   use kfd_def(b, c)
+//@   use kfd_def(a, c)
+//@   use kfd_diff(a, b)
+//@   use kfd_diff(b, c)
+//@   use kfd_diff(a, c)
+//@   use kfd_zero(a, b, kfd(a, c))
+//@   use kfd_zero(b, c, kfd(a, c))
+//@   use kfd_zero(a, c, kfd(a, b))
+//@   use kfd_zero(a, c, kfd(b, c))
+//@   use kfd_zero(a, b, kfd(b, c))
+//@   use kfd_zero(b, c, kfd(a, b))
+//@   ensures cmpkeys(a, c) <= 0
+//@   ensures cmpkeys(a, b) == 0 && cmpkeys(b, c) == 0 ==> cmpkeys(a, c) == 0
+//@   ensures cmpkeys(a, b) < 0 || cmpkeys(b, c) < 0 ==> cmpkeys(a, c) < 0
+
+//@ lemma obj_trans(a map[string]any, b map[string]any, c map[string]any)
+//@   property C11
+//@   using kfd_def kfd_zero kfd_diff vfd_def vfd_zero vfd_diff cmpv_obj cmpv_range str_lt_irrefl str_lt_total str_lt_asym str_lt_trans
+//@   requires forall j :: {skey(a, j)} 0 <= j && j < len(a) ==> (cmpv(a[skey(a, j)], b[skey(a, j)]) == 0 ==> cmpv(a[skey(a, j)], c[skey(a, j)]) == cmpv(b[skey(a, j)], c[skey(a, j)])) && (cmpv(b[skey(a, j)], c[skey(a, j)]) == 0 ==> cmpv(a[skey(a, j)], c[skey(a, j)]) == cmpv(a[skey(a, j)], b[skey(a, j)])) && (cmpv(a[skey(a, j)], b[skey(a, j)]) < 0 && cmpv(b[skey(a, j)], c[skey(a, j)]) < 0 ==> cmpv(a[skey(a, j)], c[skey(a, j)]) < 0)
+//@   requires cmpv(a, b) <= 0 && cmpv(b, c) <= 0
+//@   use keys_trans(a, b, c)
+//@   use cmpv_obj(a, b)
+//@   use cmpv_obj(b, c)
+//@   use cmpv_obj(a, c)
+//@   use vfd_def(a, b)
+//@   use vfd_def(b, c)
+//@   use vfd_def(a, c)
+//@   use vfd_diff(a, b)
+//@   use vfd_diff(b, c)
+//@   use vfd_diff(a, c)
+//@   use vfd_zero(a, b, vfd(a, c))
+//@   use vfd_zero(b, c, vfd(a, c))
+//@   use vfd_zero(a, c, vfd(a, b))
+//@   use vfd_zero(a, c, vfd(b, c))
+//@   use vfd_zero(a, b, vfd(b, c))
+//@   use vfd_zero(b, c, vfd(a, b))
+//@   use kfd_def(a, b)
+//@   use kfd_def(b, c)
+//@   use kfd_diff(a, b)
+//@   use kfd_diff(b, c)
+//@   use kfd_zero(a, b, vfd(a, b))
+//@   use kfd_zero(a, b, vfd(b, c))
+//@   use kfd_zero(a, b, vfd(a, c))
+//@   ensures cmpv(a, c) <= 0
